@@ -64,7 +64,16 @@ def universe(r, nested=200):
     return out
 
 
+def override_terms():
+    """results published under a caller-chosen key (KeyOverrideResult) that other calls publish under too"""
+    inner = [{"t": "str", "v": "report of day 1"}, {"t": "dict", "v": {"a": {"t": "int", "v": "1"}}}, {"t": "frame", "cols": {"a": [1, 2]}},
+             {"t": "nd", "dtype": "int64", "v": [1, 2, 3]}, {"t": "list", "v": [{"t": "float", "v": "1.5"}]}]
+    return [{"t": "ovr", "key": "reports/latest", "v": x} for x in inner] + [{"t": "ovr", "key": "runs/exp#7/summary", "v": inner[0]}]
+
+
 def mon_cfg(term, mod):
+    if term["t"] == "ovr":
+        return dict(mon_cfg(term["v"], mod))
     if term["t"] == "exc":
         return {"kind": term["kind"], "cls": term["cls"], "rebuild": term["rebuild"], "mod": mod, "tag": "exc", "dtype": ""}
     return {"kind": "value", "cls": "", "rebuild": False, "mod": mod, "tag": term["t"], "dtype": term.get("dtype", "")}
